@@ -554,7 +554,7 @@ def _arm_kind(lam, fi):
     return "top"
 
 
-def _child_roles(arm, env, subject, fname, label, slots=("left", "right")):
+def _child_roles(arm, env, subject, fname, label, slots=("left", "right"), prog=None):
     """Map local callable names of an arm to the operand slot they were built from.
     recursive: left_fn = _build_evaluator(expr.left, ...)
     iterative: first-pushed child <-> first-popped result (two LIFO passes)."""
@@ -569,6 +569,15 @@ def _child_roles(arm, env, subject, fname, label, slots=("left", "right")):
                     roles[n.targets[0].id] = c.args[0].attr
                 if isinstance(c.func, ast.Attribute) and c.func.attr == "pop" and src(c.func.value) == "result_stack":
                     pops.append(n.targets[0].id)
+            if prog is not None and isinstance(n, ast.Call) and isinstance(n.func, ast.Name):
+                # h(op, result_stack.pop(), result_stack.pop(), ..): arguments are evaluated left to right, so the first pop
+                # lands in the parameter written first
+                direct = [(k, a) for k, a in enumerate(n.args) if isinstance(a, ast.Call) and isinstance(a.func, ast.Attribute) and a.func.attr == "pop" and src(a.func.value) == "result_stack" and not a.args]
+                callee = [f for f in prog.functions.values() if f.name == n.func.id and f.parent is None]
+                if len(direct) >= 2 and len(callee) == 1 and not any(isinstance(a, ast.Starred) for a in n.args):
+                    params = [a.arg for a in callee[0].node.args.args]
+                    if all(k < len(params) for k, _ in direct):
+                        pops += [params[k] for k, _ in direct]
             if isinstance(n, ast.Call) and isinstance(n.func, ast.Attribute) and n.func.attr == "append" and src(n.func.value) == "stack" and n.args and isinstance(n.args[0], ast.Tuple):
                 first = n.args[0].elts[0]
                 if isinstance(first, ast.Attribute) and src(first.value) == subject and first.attr in slots:
@@ -582,6 +591,7 @@ def _child_roles(arm, env, subject, fname, label, slots=("left", "right")):
             roles[nm] = slot
         ok = all(("left" in nm) == (slot == "left") and ("right" in nm) == (slot == "right") for nm, slot in zip(pops, pushes)) if slots == ("left", "right") else True
         roles["__ok__"] = ok
+        roles["__positive__"] = slots == ("left", "right") and sorted(pushes) == ["left", "right"] and all(("left" in nm) != ("right" in nm) for nm in pops)
         roles["__why__"] = (f"children pushed {pushes}, results popped into {pops}: first-pushed <-> first-popped, names agree with roles" if ok else
                             f"children are pushed in order {pushes} but results are popped into {pops}: after two LIFO passes the first pop is the {pushes[0]} child, so the operands of -, / and ** are swapped")
     return roles
